@@ -106,6 +106,10 @@ def schemas(rnd):
     # restate subtraction  a - b -> a + (-b)   and back
     out.append(("RS0", ("sub", a, V("x")), "", ("negated-right", "add", a, V("x")), "restate"))
     out.append(("RS0", ("sub", a, term(C(3), "x", None)), "", ("negated-right", "add", a, term(C(3), "x", None)), "restate"))
+    # ... for every kind of subtrahend (seed C08-C negated the BASE of a constant power: 4 - 2^2 -> 4 + (-2)^2)
+    for sb in (b, ("pow", coef(rnd), C(2)), ("pow", C(2), V("x")), ("pow", C(-2), C(2)), ("pow", coef(rnd), coef(rnd)), ("mul", C(3), ("pow", V("x"), C(2))),
+               ("div", C(6), V("x")), ("add", V("x"), C(1)), ("neg", V("y")), C(-4), ("mul", V("x"), V("y")), ("pow", V("x"), C(2))):
+        out.append(("RS0", ("sub", a, sb), "", ("negated-right", "add", a, sb), "restate"))
     out.append(("RS0", ("add", a, C(-5)), "", ("negated-right", "sub", a, C(-5)), "restate"))
     out.append(("RS0", ("add", a, term(C(-2), "x", None)), "", ("negated-right", "sub", a, term(C(-2), "x", None)), "restate"))
     out.append(("RS0", ("add", a, term(C(2), "x", None)), "", None, "reject"))
